@@ -37,9 +37,9 @@ KINDS = ('ok', 'exit1', 'exit3', 'sigkill', 'sigterm', 'missing', 'noexec')
 
 def command(kind, pos, scratch):
     if kind == 'ok':
-        return ['/bin/sh', '-c', f'printf o{pos}; printf e{pos} >&2; touch marker{pos}']
+        return ['/bin/sh', '-c', f'printf o{pos}; echo e{pos} >&2; touch marker{pos}']
     if kind == 'exit1':
-        return ['/bin/sh', '-c', f'printf o{pos}; printf e{pos} >&2; touch marker{pos}; exit 1']
+        return ['/bin/sh', '-c', f'printf o{pos}; echo e{pos} >&2; touch marker{pos}; exit 1']
     if kind == 'exit3':
         return ['/bin/sh', '-c', f'touch marker{pos}; exit 3']
     if kind == 'sigkill':
@@ -61,7 +61,7 @@ def interpret(kinds, clis):
         markers.append(f'marker{pos}')
         if kind in ('ok', 'exit1'):
             out += f'o{pos}'
-            err += f'e{pos}'
+            err += f'e{pos}\n'
         code = {'ok': 0, 'exit1': 1, 'exit3': 3, 'sigkill': -9, 'sigterm': -15}[kind]
         codes.append(code)
         if code != 0:
